@@ -40,7 +40,7 @@ ASSUMPTIONS = ["the look-back template T5 (delay of a constant) runs on the star
                "clause (iii) uses the closed-form template reference with relative tolerance 1e-9",
                "stream-steps comes last in a partition (it runs to the stop time)"]
 FAULT_KINDS = []
-PROBES = ["stop_time_off_the_grid", "bystander_scenario_on_another_grid", "two_managers_different_runspecs", "earlier_session_not_ended", "decimal_dt", "fractional_start", "mixed_partition", "per_step_settings", "equation_subset_without_dependencies", "two_scenarios_different_runspecs",
+PROBES = ["failed_step_request_retried", "stop_time_off_the_grid", "bystander_scenario_on_another_grid", "two_managers_different_runspecs", "earlier_session_not_ended", "decimal_dt", "fractional_start", "mixed_partition", "per_step_settings", "equation_subset_without_dependencies", "two_scenarios_different_runspecs",
           "stream_in_partition", "points_step_setting", "runspecs_in_session_settings", "flat_results_requested", "two_scenarios_in_one_session", "scenario_level_constants"]
 EXHAUSTIVE = {"quick": False, "thorough": False}
 
@@ -125,6 +125,9 @@ def generate(spec):
     case = {"property": PROPERTY,
             "config": {"template": template, "start": start, "stop": stop, "dt": dt, "constants": consts},
             "equations": eqs, "partition": gen_partition(rng, nsteps), "step_settings": {}, "second": None, "off_grid_stop": off_grid}
+    singles = [n_ for n_, p_ in enumerate(case["partition"]) if p_["kind"] == "run_step"]
+    if singles and rng.random() < 0.2:
+        case["fault_at"] = rng.choice(singles)      # (REST channel) this run-step request fails inside the step once and is asked again
     if rng.random() < 0.45:
         case["step_settings"] = gen_step_settings(rng, template, nsteps)
     if rng.random() < 0.3:
@@ -467,7 +470,7 @@ def rest_channel(case, res, log, want, ref):
         r = w.post("/%s/begin-session" % iid, body)
         acc = {}
         k = 0
-        for part in case["partition"]:
+        for pno, part in enumerate(case["partition"]):
             flat = bool(part.get("flat"))
             k_first = k
             extra = {"flatResults": True} if flat else {}
@@ -475,7 +478,20 @@ def rest_channel(case, res, log, want, ref):
                 res.probe("flat_results_requested")
             if part["kind"] == "run_step":
                 st = settings_for(case, k)
-                r = w.post("/%s/run-step" % iid, {"settings": st, **extra})
+                if case.get("fault_at") == pno:
+                    # a step request that fails in the middle of the step (the runner raises): the client gets an error and
+                    # asks again - a request that returned nothing has not used up a time of the grid
+                    tag = "fault%d" % pno
+                    w.raise_at[tag] = 0
+                    w.raise_where[tag] = "inside"
+                    rf = w.post("/%s/run-step" % iid, {"settings": st, **extra}, tag=tag)
+                    res.probe("failed_step_request_retried")
+                else:
+                    rf = None
+                if rf is not None and rf.status == 200 and isinstance(rf.body, dict) and "msg" not in rf.body:
+                    r = rf      # (a server that coped with the failure and answered the step: then that IS the step)
+                else:
+                    r = w.post("/%s/run-step" % iid, {"settings": st, **extra})
                 bodies = [r.body]
                 k += 1
             elif part["kind"] == "run_steps":
